@@ -28,7 +28,28 @@
  * untouched, shows in the transcript (the model prints the documented errno) */
 static unsigned amb_n = 0;
 static const int AMB[8] = {0, ENOMEM, ERANGE, EINTR, ENOENT, EINVAL, EAGAIN, ENOBUFS};
-#define PLANT() (errno = AMB[amb_n++ & 7])
+/* C07 "the image contains no process addresses": before every library call the part of the stack the
+ * call is going to use is filled with the address of a static object (all eight byte rotations occur,
+ * since the words are adjacent); a local the library copies into the region without having initialised
+ * it (a digest buffer, a padding hole of a slot built on the stack) then carries that address into the
+ * image, where addr_scan() finds it (seed C07-m9). The filler is written through a volatile pointer so
+ * that the compiler cannot drop it; ASan does not mind: the array is a live local while it is written. */
+static char stack_marker_obj[16];
+static __attribute__((noinline)) void stack_poison(void) {
+    volatile uintptr_t fill[2048];
+    for (size_t i = 0; i < sizeof fill / sizeof fill[0]; i++) fill[i] = (uintptr_t) stack_marker_obj;
+}
+#define PLANT() (stack_poison(), errno = AMB[amb_n++ & 7])
+/* offset of the first place in [mem, mem+n) holding the marker address (any byte rotation), or -1 */
+static long addr_scan(const unsigned char *mem, size_t n) {
+    unsigned char two[16]; uintptr_t a = (uintptr_t) stack_marker_obj;
+    memcpy(two, &a, 8); memcpy(two + 8, &a, 8);
+    for (int r = 0; r < 8; r++) {
+        const unsigned char *hit = n >= 8 ? memmem(mem, n, two + r, 8) : NULL;
+        if (hit) return (long) (hit - mem);
+    }
+    return -1;
+}
 
 #define GUARDSZ 4096
 #define PAT 0xA5
@@ -454,6 +475,8 @@ int main(void) {
             tc.n = 0; sb_puts(&tc, ""); obs_text(&tc, tbl2, &ks);
             if (!guards_ok(&C) || memcmp(C.mem, R.mem, R.memsize) != 0 || memcmp(shadow, R.mem, R.memsize) != 0) g1 = false;
         }
+        { long at = R.memsize <= (1u << 22) ? addr_scan(R.mem, R.memsize) : -1;
+          if (at >= 0) printf(" !process-address@%ld", at); }
         printf(" | g %d%d%d | ", g1, g2, g3);
         if (!full) printf("o - c -");
         else if (maxslots <= SMALLCAP) printf("o[%s] c[%s]", to.p, tc.p);
